@@ -449,7 +449,7 @@ func (t *termer) term(v ssa.Value, d int) string {
 	case *ssa.Call:
 		cc := x.Common()
 		if x.Type() != nil {
-			if _, isTuple := x.Type().(*types.Tuple); !isTuple {
+			if _, isTuple := x.Type().(*types.Tuple); !isTuple && !c.verdictByControlFlow(x) {
 				if s, ok := t.inlineResult(x, 0, d); ok {
 					return s
 				}
@@ -1134,4 +1134,27 @@ func (c *Ctx) cellOrdinal(a *ssa.Alloc) string {
 		return fmt.Sprintf("#%d", k)
 	}
 	return ""
+}
+
+// verdictByControlFlow: the call is to a looked-through predicate whose returns are all boolean constants (its
+// answer is decided by its control flow: `switch k { case A: return true }; return false`). Inlining its result
+// would give the uninformative phi{true | false}; the call itself is kept as the term.
+func (c *Ctx) verdictByControlFlow(call *ssa.Call) bool {
+	cal := call.Common().StaticCallee()
+	if cal == nil || !c.isNew(cal) || cal.Signature.Results().Len() != 1 {
+		return false
+	}
+	if bt, ok := cal.Signature.Results().At(0).Type().Underlying().(*types.Basic); !ok || bt.Info()&types.IsBoolean == 0 {
+		return false
+	}
+	rets := returnsOf(cal)
+	if len(rets) < 2 {
+		return false
+	}
+	for _, ret := range rets {
+		if _, isC := ret.Results[0].(*ssa.Const); !isC {
+			return false
+		}
+	}
+	return true
 }
